@@ -11,6 +11,7 @@ import JubakoModel.Lemmas.Rewrite
 import JubakoModel.Lemmas.SetLocation
 import JubakoModel.Lemmas.FuncsCheck
 import JubakoModel.Lemmas.FuncsLookup
+import JubakoModel.Lemmas.FuncsManifest
 
 set_option maxRecDepth 8000
 
@@ -94,5 +95,23 @@ theorem c12_pack_info_offsets_are_source_offsets (cip count : Nat) :
         (Generated.packOffsetsNew packInfoBlockSize cip count).2 =
       (List.range count).map (fun k => packInfosOffset cip count + k * packInfoBlockSize) :=
   gen_packOffsets cip count
+
+/-- **The manifest is opened as the source opens it**: `manifestOpen` of the model agrees with `ManifestPack::new`
+    as translated from `reader/manifest_pack.rs` on every run (pack infos at the offsets of the translated
+    iterator, directory pack info apart, others in order, value store, the `unwrap()` of the directory info). -/
+theorem c12_manifest_open_is_source_open (f : Bytes)
+    (hU : ∀ hd h mb m, readBlock f 0 60 = .ok hd → PackHeader.decode hd = .ok h → readBlock f 64 60 = .ok mb →
+      ManifestHeader.decode mb = .ok m → m.packCount * packInfoBlockSize ≤ h.checkInfoPos) :
+    ((Generated.manifestPackNew
+        ((readBlock f 0 60).bind fun hd => PackHeader.decode hd)
+        ((readBlock f 64 60).bind fun mb => ManifestHeader.decode mb)
+        (fun h m => (List.range m.packCount).map (fun k => packInfosOffset h.checkInfoPos m.packCount + k * packInfoBlockSize))
+        (fun off => (readBlock f off 252).bind fun pb => PackInfo.decode pb)
+        (fun so => valueStoreOpen f so)).map' (fun r => (r.1, r.2.1, r.2.2.1, r.2.2.2.1))).Same
+      ((manifestOpen f).bind fun r =>
+        match (r.2.2.filter isDir).getLast? with
+        | some d => .ok (r.1, r.2.1, d, r.2.2.filter (fun i => !isDir i))
+        | none => .panic "") :=
+  gen_manifestOpen f hU
 
 end Jubako
